@@ -50,6 +50,26 @@ CLAIMS = {
   "note": "Not decided: panics in third-party libraries, nil dereferences other than through union arms, out-of-memory, explicit invariant panics in container type assertions. Trusted: go/types, engine/absint, engine/unionfield.",
   "technique": "abstract interpretation with forced-zero / bound-entailment scenarios + enum exhaustiveness over go/types",
  },
+ "C08": {
+  "text": "Structural soundness conditions of the type system, decided on all paths: every function descriptor (and aggregate) with a static result type constructs only values of that type (a body that can return NULL must declare it); the typechecker marks strict calls nullable under exactly the predicate under which Materialize inserts the NULL check (truth table over the type relation); every runtime TypeAssertion site records static type = target ∩ expression type with the same target, strict functions assert the nullable target, and unions are only built by TypeSum; TypeAssertion/TypeCast behave as the static types assume (value iff TypeID expected / NULL otherwise); no pointer to a shared loop variable escapes in the type algebra and planner.",
+  "note": "Does not decide soundness of every typing judgement (overload resolution, TypeFn bodies with computed result types) nor datasource conformance (C24). Trusted: go/types, engine/absint, engine/tables.",
+  "technique": "descriptor-table extraction + constructor/type agreement, truth-table comparison, abstract interpretation of the runtime assertions",
+ },
+ "C10": {
+  "text": "Only the clauses whose truth is in the code shape: Value.Type/ToRawGoValue/append read the payload of their own TypeID arm (so a value reports the types of its own elements); NonNullable drops exactly the Null alternative and unwraps a single survivor; the two union folds of Type.Is are explored as products with their reference automata (receiver: all Is → Is, some Is/Maybe → Maybe, else Isnt; argument: maximum); Any accepts everything; no loop-variable pointer escapes in package octosql.",
+  "note": "The algebraic laws proper (reflexivity of Is, TypeSum upper bound/commutativity/idempotence, TypeIntersection containment) are inductive facts about recursive functions — theorem proving, not static analysis of code shape — and are NOT decided. Trusted: go/types, engine/absint.",
+  "technique": "discriminant/payload agreement + loop × reference-automaton product",
+ },
+ "C12": {
+  "text": "The LIKE translator is explored as a product of its loop with the escape automaton over 20 rune classes (every Go-regexp metacharacter, _, %, the escape character, ordinary and multi-byte runes, newline) and must emit the reference translation in both states, anchored and with the s flag; ~ and ~* must compile the unmodified pattern (with (?i) for ~*), match the unmodified subject and key their cache by the string that determines the compiled expression; reverse must not mix byte offsets and rune indices; upper/lower/replace/len/position delegate to the intended strings functions with the intended arguments; substr slices the first argument from the second.",
+  "note": "Go's regexp engine and Unicode case mapping are trusted; byte-vs-character semantics of substr/len are as implemented (bytes). Trusted: go/types, engine/absint.",
+  "technique": "finite-domain abstract interpretation (loop × reference-automaton product over rune classes) + symbolic result comparison",
+ },
+ "C13": {
+  "text": "Each of the 76 function descriptors is abstractly interpreted with symbolic arguments: arithmetic operators must compute `values[0].P op values[1].Q` with the operator of their map key, operands in order, the payloads of the declared argument types and the constructor of the declared result; math/time/conversion functions must delegate to the intended library call on the intended arguments; failed parses yield NULL; COALESCE is explored as a product with its reference automaton (first non-NULL wins, else NULL, any arity); IN/NOT IN scan with Equal and negate each other; list indexing yields the element inside 0 ≤ i < len and NULL outside.",
+  "note": "The numerical results of Go arithmetic and the math/time libraries are trusted, not computed. Trusted: go/types, engine/absint, engine/tables.",
+  "technique": "abstract interpretation with symbolic arguments + expected-term tables; loop × reference-automaton product",
+ },
 }
 
 NOT_APPLICABLE = {
